@@ -659,9 +659,21 @@ func (c *Ctx) sumAllRecord(rule string, step *ssa.Function) {
 					continue
 				}
 				// ... and from the value the field held
+				// (the same field of the record: of the cell that is written, or of the record that was handed in when
+				// the new sums are put into a fresh one)
 				if derivedFrom(store.Val, func(v ssa.Value) bool {
+					if fv, isField := v.(*ssa.Field); isField {
+						return fv.Field == f && structOf(fv.X.Type()) != nil && structOf(fv.X.Type()).Obj() == named.Obj()
+					}
 					ld, ok := v.(*ssa.UnOp)
-					return ok && ld.Op == token.MUL && sameAddr(ld.X, fa)
+					if !ok || ld.Op != token.MUL {
+						return false
+					}
+					if sameAddr(ld.X, fa) {
+						return true
+					}
+					from, isFA := ld.X.(*ssa.FieldAddr)
+					return isFA && from.Field == f && structOf(from.X.Type()) != nil && structOf(from.X.Type()).Obj() == named.Obj()
 				}) {
 					found = c.M.InstrPos(store)
 				}
@@ -909,15 +921,33 @@ func (c *Ctx) ruleDiscRoute(rule string) {
 		if fn.Signature.Recv() == nil || len(fn.Params) < 2 || !strings.Contains(typeStr(fn.Params[0].Type()), "OneOfSchema") {
 			continue
 		}
-		// compares ReflectedType() of a member with a reflect.Type
-		compares := false
-		for _, b := range fn.Blocks {
-			for _, in := range b.Instrs {
-				if bin, ok := in.(*ssa.BinOp); ok && (bin.Op == token.EQL || bin.Op == token.NEQ) {
-					for _, side := range []ssa.Value{bin.X, bin.Y} {
-						if call, isCall := side.(*ssa.Call); isCall && call.Call.IsInvoke() && call.Call.Method.Name() == "ReflectedType" {
-							compares = true
+		// compares ReflectedType() of a member with a reflect.Type - itself, or in a helper on the same receiver that it
+		// hands the member to
+		comparesIn := func(g *ssa.Function) bool {
+			for _, b := range g.Blocks {
+				for _, in := range b.Instrs {
+					if bin, ok := in.(*ssa.BinOp); ok && (bin.Op == token.EQL || bin.Op == token.NEQ) {
+						for _, side := range []ssa.Value{bin.X, bin.Y} {
+							if call, isCall := side.(*ssa.Call); isCall && call.Call.IsInvoke() && call.Call.Method.Name() == "ReflectedType" {
+								return true
+							}
 						}
+					}
+				}
+			}
+			return false
+		}
+		compares := comparesIn(fn)
+		if !compares {
+			for _, b := range fn.Blocks {
+				for _, in := range b.Instrs {
+					call, ok := in.(*ssa.Call)
+					if !ok {
+						continue
+					}
+					if g := core.StaticBody(&call.Call); g != nil && g != fn && g.Signature.Recv() != nil && len(call.Call.Args) > 0 &&
+						types.Identical(call.Call.Args[0].Type(), fn.Params[0].Type()) && comparesIn(g) {
+						compares = true
 					}
 				}
 			}
